@@ -2,7 +2,7 @@
 # Run the pinned baseline command and compare with BASELINE.json stable_pass.
 # usage: baseline_check.sh [pytest-target ...]
 OUT=${OUT:-/tmp/baseline_junit.xml}
-cd /repo && /venv/bin/python -m pytest -ra -q -p no:cacheprovider --timeout=900 --continue-on-collection-errors --junitxml=$OUT "$@" > /tmp/baseline_out.txt 2>&1
+cd ${ROOT:-/repo} && PYTHONPATH=${ROOT:-/repo} /venv/bin/python -m pytest -ra -q -p no:cacheprovider --timeout=900 --continue-on-collection-errors --junitxml=$OUT "$@" > /tmp/baseline_out.txt 2>&1
 tail -3 /tmp/baseline_out.txt
 /venv/bin/python - "$OUT" <<'PY'
 import json, sys
